@@ -13,7 +13,8 @@ import (
 //	index.autoindex.replace, column.charset.modify.notable, column.collation.modify.notable,
 //	column.default.case, column.default.cast, check.add.colname, table.autoincrement.add / .drop,
 //	index.autosummarize, column.generated.spelling, fk.positional.permute / .permute.action / .append,
-//	index.ops.drop.method, index.ops.drop.coltype
+//	index.ops.drop.method, index.ops.drop.coltype, index.compound.<x>+<y>,
+//	table.autoincrement.{add,drop}+{without_rowid,strict} toggles
 //	                      see autoIndexEdits, charsetNoTableEdits, defaultCaseEdits, defaultCastEdits,
 //	                      checkColumnNameEdits
 //	pk.parts.shrink.null  the last column of a composite primary key leaves the key and becomes nullable
@@ -52,8 +53,62 @@ func ExtraCatalogue(m *Model) []Edit {
 		c.generatedSpellingEdits(t)
 		c.positionalFKEdits(t)
 		c.opClassCompoundEdits(t)
+		c.indexCompoundEdits(t)
 	}
 	return c.out
+}
+
+// indexCompoundEdits: index.compound.<x>+<y> — two elementary edits of different kinds hit the SAME index in
+// one diff (x, y in parts: DESC toggle of the first part; comment: add / change; unique: toggle; attr: partial
+// index predicate added / changed, PostgreSQL and SQLite): one ModifyIndex carrying both bits.
+func (c *catalogue) indexCompoundEdits(t *Table) {
+	n := t.Name
+	for _, idx := range t.Indexes {
+		if idx.Name == "" || IsAutoIndexName(idx.Name) || idx.Type != "" || idx.Parser != "" || idx.NullsNotDist || idx.Parts[0].Col == "" {
+			continue
+		}
+		in := idx.Name
+		type sub struct {
+			tag   string
+			bit   schema.ChangeKind
+			apply func(x *Index)
+		}
+		subs := []sub{
+			{"parts", schema.ChangeParts, func(x *Index) { x.Parts[0].Desc = !x.Parts[0].Desc }},
+			{"unique", schema.ChangeUnique, func(x *Index) { x.Unique = !x.Unique }},
+		}
+		if c.d != SQLite {
+			subs = append(subs, sub{"comment", schema.ChangeComment, func(x *Index) { x.Comment = other(commentAlphabet, x.Comment, 1)[0] }})
+		}
+		if c.d != MySQL {
+			var num string
+			for _, col := range t.Columns {
+				if col.Type.Class == CInt && col.Generated == nil {
+					num = col.Name
+					break
+				}
+			}
+			if idx.Where != "" || num != "" {
+				subs = append(subs, sub{"attr", schema.ChangeAttr, func(x *Index) {
+					if x.Where == "" {
+						x.Where, x.WhereCols = num+" > 0", []string{num}
+					} else {
+						x.Where += " AND 2 = 2"
+					}
+				}})
+			}
+		}
+		for i := range subs {
+			for j := i + 1; j < len(subs); j++ {
+				a, b := subs[i], subs[j]
+				c.add("index.compound."+a.tag+"+"+b.tag, n, in, "", modIdx(n, in, a.bit|b.bit), func(m *Model) {
+					x := m.Table(n).Index(in)
+					a.apply(x)
+					b.apply(x)
+				})
+			}
+		}
+	}
 }
 
 // opClassCompoundEdits (PostgreSQL): an explicit operator class disappears from an index part TOGETHER
@@ -234,9 +289,12 @@ func (c *catalogue) positionalFKEdits(t *Table) {
 }
 
 // sqliteAutoIncEdits: table.autoincrement.add / .drop — the single-column INTEGER PRIMARY KEY of a SQLite
-// rowid table gains or loses AUTOINCREMENT: AddAttr / DropAttr(AutoIncrement) on the table.
+// rowid table gains or loses AUTOINCREMENT: AddAttr / DropAttr(AutoIncrement) on the table. The compound
+// forms do it in ONE diff together with the WITHOUT ROWID toggle that the change makes possible
+// (…drop+without_rowid.add, …add+without_rowid.drop; reversed evaluation gives the opposite directions)
+// and, as the control, together with a STRICT toggle: two attribute changes each.
 func (c *catalogue) sqliteAutoIncEdits(t *Table) {
-	if c.d != SQLite || t.PK == nil || len(t.PK.Cols) != 1 || t.WithoutRowID {
+	if c.d != SQLite || t.PK == nil || len(t.PK.Cols) != 1 {
 		return
 	}
 	n, cn := t.Name, t.PK.Cols[0]
@@ -244,10 +302,48 @@ func (c *catalogue) sqliteAutoIncEdits(t *Table) {
 	if col.Type.T != "integer" || col.Generated != nil {
 		return
 	}
-	if col.AutoInc {
-		c.add("table.autoincrement.drop", n, cn, "", []Desc{{Kind: "DropAttr", Table: n, Object: "AutoIncrement"}}, func(m *Model) { m.Table(n).Column(cn).AutoInc = false })
-	} else {
-		c.add("table.autoincrement.add", n, cn, "", []Desc{{Kind: "AddAttr", Table: n, Object: "AutoIncrement"}}, func(m *Model) { m.Table(n).Column(cn).AutoInc = true })
+	inc := func(m *Model, v bool) { m.Table(n).Column(cn).AutoInc = v }
+	attr := func(kind, name string) Desc { return Desc{Kind: kind, Table: n, Object: name} }
+	strictToggle := func() (Desc, bool) { // the STRICT toggle that is valid on t, used as the control
+		switch {
+		case t.Strict:
+			return attr("DropAttr", "Strict"), true
+		case strictOK(t):
+			return attr("AddAttr", "Strict"), true
+		}
+		return Desc{}, false
+	}
+	switch {
+	case t.WithoutRowID:
+		// a WITHOUT ROWID table becomes a rowid table with AUTOINCREMENT, in one step.
+		if !col.AutoInc {
+			c.add("table.autoincrement.add+without_rowid.drop", n, cn, "", []Desc{attr("AddAttr", "AutoIncrement"), attr("DropAttr", "WithoutRowID")}, func(m *Model) {
+				inc(m, true)
+				m.Table(n).WithoutRowID = false
+			})
+		}
+	case col.AutoInc:
+		c.add("table.autoincrement.drop", n, cn, "", []Desc{attr("DropAttr", "AutoIncrement")}, func(m *Model) { inc(m, false) })
+		// AUTOINCREMENT is dropped and the table becomes WITHOUT ROWID, in one step (and the control:
+		// together with a STRICT toggle).
+		c.add("table.autoincrement.drop+without_rowid.add", n, cn, "", []Desc{attr("DropAttr", "AutoIncrement"), attr("AddAttr", "WithoutRowID")}, func(m *Model) {
+			inc(m, false)
+			m.Table(n).WithoutRowID = true
+		})
+		if st, ok := strictToggle(); ok {
+			c.add("table.autoincrement.drop+strict.toggle", n, cn, "", []Desc{attr("DropAttr", "AutoIncrement"), st}, func(m *Model) {
+				inc(m, false)
+				m.Table(n).Strict = !m.Table(n).Strict
+			})
+		}
+	default:
+		c.add("table.autoincrement.add", n, cn, "", []Desc{attr("AddAttr", "AutoIncrement")}, func(m *Model) { inc(m, true) })
+		if st, ok := strictToggle(); ok {
+			c.add("table.autoincrement.add+strict.toggle", n, cn, "", []Desc{attr("AddAttr", "AutoIncrement"), st}, func(m *Model) {
+				inc(m, true)
+				m.Table(n).Strict = !m.Table(n).Strict
+			})
+		}
 	}
 }
 
@@ -512,6 +608,13 @@ func ExtraPool(d Dialect) []*Model {
 			}))
 	}
 	if d == SQLite {
+		// AUTOINCREMENT / WITHOUT ROWID / STRICT in the combinations the compound edits need.
+		out = append(out, newModel(d, "autoinc",
+			&Table{Name: "t1", Columns: []*Column{Col("c1", ty.Int(), AutoInc()), Col("c2", ty.Text(), Nullable()), Col("c3", ty.Float(), Nullable())}, PK: &PrimaryKey{Cols: []string{"c1"}}},
+			&Table{Name: "t2", WithoutRowID: true, Columns: []*Column{Col("c1", ty.Int()), Col("c2", ty.Text(), Nullable())}, PK: &PrimaryKey{Cols: []string{"c1"}}},
+			&Table{Name: "t3", Strict: true, Columns: []*Column{Col("c1", ty.Int(), AutoInc()), Col("c2", ty.Blob(), Nullable())}, PK: &PrimaryKey{Cols: []string{"c1"}}},
+			&Table{Name: "t4", Columns: []*Column{Col("c1", ty.Int()), Col("c2", ty.Text(), Nullable())}, PK: &PrimaryKey{Cols: []string{"c1"}}},
+		))
 		// unnamed foreign keys as inspection reports them: symbols are positions.
 		out = append(out, newModel(d, "fk-positional",
 			&Table{Name: "t1", Columns: []*Column{Col("c1", ty.Int()), Col("c2", ty.Text(), Nullable())}, PK: &PrimaryKey{Cols: []string{"c1"}}},
